@@ -83,6 +83,14 @@ extern char g_buf[BUF_N], g_buf2[BUF_N];
 #define MAKE_SV2(v) ((void)0)
 #endif
 
+/* memcpy of a small constant size, byte by byte */
+#define MC1_(d, s, k) ((char *)(d))[k] = ((const char *)(s))[k];
+#define MEMCPY_1(d, s) do { MC1_(d, s, 0) } while (0)
+#define MEMCPY_2(d, s) do { MC1_(d, s, 0) MC1_(d, s, 1) } while (0)
+#define MEMCPY_4(d, s) do { MC1_(d, s, 0) MC1_(d, s, 1) MC1_(d, s, 2) MC1_(d, s, 3) } while (0)
+#define MEMCPY_8(d, s) do { MC1_(d, s, 0) MC1_(d, s, 1) MC1_(d, s, 2) MC1_(d, s, 3) MC1_(d, s, 4) MC1_(d, s, 5) MC1_(d, s, 6) MC1_(d, s, 7) } while (0)
+#define MEMCPY_16(d, s) do { MEMCPY_8(d, s); MEMCPY_8(((char *)(d)) + 8, ((const char *)(s)) + 8); } while (0)
+
 /* harness inputs: NONDET(T, name) is an explicit nondeterministic assignment (so that it shows in CBMC traces) */
 unsigned char nondet_uchar(void); char nondet_char(void); size_t nondet_size(void); unsigned nondet_unsigned(void);
 _Bool nondet_bool(void); unsigned long nondet_u64(void); unsigned short nondet_u16(void); int nondet_int(void);
